@@ -15,4 +15,14 @@ stale = total_rule.stale_rows(ctx, "all")
 for fn, kind, what in stale:
     print("STALE-ROW %s | %s | %s" % (fn.replace("crate::", ""), kind, what))
 print("total rows: %d, stale: %d" % (sum(len(v) for v in ctx.table("total").values()), len(stale)))
-sys.exit(1 if stale else 0)
+# overflow-clause rows
+ARMED = ("C01", "C02", "C03", "C05", "C06", "C07", "C08", "C09", "C10", "C13", "C16", "C17")
+for pid in ARMED:
+    total_rule.run_overflow(ctx, entries.TOTAL_ENTRIES[pid], 0, pid)
+T = total_rule.totality_ovf(ctx)
+ostale = [(fn, r.get("kind"), r.get("what")) for fn, rows in ctx.table("overflow").items() for r in rows
+          if (fn, r.get("kind"), r.get("what")) not in T.table_used and not r.get("optional")]
+for fn, kind, what in ostale:
+    print("STALE-OVERFLOW-ROW %s | %s | %s" % (fn.replace("crate::", ""), kind, what))
+print("overflow rows: %d, stale: %d" % (sum(len(v) for v in ctx.table("overflow").values()), len(ostale)))
+sys.exit(1 if stale or ostale else 0)
